@@ -20,6 +20,7 @@ type SpecCtx struct {
 	bound     map[string]Val
 	inOld     bool
 	fnName    string // enclosing Go function (for function-typed parameters)
+	fr        *frame // enclosing frame (for atloop)
 }
 
 type specErr string
@@ -830,6 +831,26 @@ func (c *SpecCtx) evalCall(e *ECall) Val {
 		c.inOld = true
 		v := c.eval(e.Args[0])
 		c.st, c.lookup, c.inOld = saveSt, saveLk, saveIn
+		return v
+	case "atloop":
+		// atloop(k, e): e evaluated in the state in which loop k was entered (e.g. right after a barrier)
+		if c.fr == nil || len(e.Args) != 2 {
+			c.fail("atloop(k, e) not available here")
+		}
+		kv := c.eval(e.Args[0])
+		if !kv.isConst() {
+			c.fail("atloop: loop ordinal must be a constant")
+		}
+		k64, _ := constant.Int64Val(kv.Const)
+		pst := c.fr.loopPre[int(k64)]
+		if pst == nil {
+			c.fail("atloop(%d, ...): loop %d has not been entered on this path", k64, k64)
+		}
+		saveSt, saveIn := c.st, c.inOld
+		c.st = pst
+		c.inOld = true
+		v := c.eval(e.Args[1])
+		c.st, c.inOld = saveSt, saveIn
 		return v
 	case "len", "cap":
 		x := c.eval(e.Args[0])
